@@ -5,7 +5,7 @@
 //! around calls into the library (constructors, setters, `build`, `new_boxed`,
 //! `clone_dyn`, `Box::new` placements).
 
-use crate::ctor::{self, addr_of, hex, image_of, panic_text, Built, Ctor, Held, ScopeOff};
+use crate::ctor::{self, addr_of, hex, image_of, panic_text, view_of, Built, Ctor, Held, ScopeOff};
 use crate::ops::{Op, OpKind, Trace};
 use crate::rng::Digest;
 use crate::simalloc::{self, Scope};
@@ -186,6 +186,7 @@ impl DstKind {
 
 pub trait DstObj {
     fn image(&self) -> Result<Vec<u8>, String>;
+    fn view(&self) -> Result<(usize, usize), String>;
     fn addr(&self) -> usize;
     fn size_of_val(&self) -> usize;
     /// `clone_dyn` of the real crate, inside the allocator scope.
@@ -195,6 +196,9 @@ pub trait DstObj {
 impl<T: MaybeDynSized<Metadata = usize> + ?Sized + 'static> DstObj for Box<T> {
     fn image(&self) -> Result<Vec<u8>, String> {
         image_of::<T>(self)
+    }
+    fn view(&self) -> Result<(usize, usize), String> {
+        view_of::<T>(self)
     }
     fn addr(&self) -> usize {
         addr_of::<T>(self)
@@ -469,6 +473,12 @@ impl Interp {
             }
             None if !simalloc::tracking() => {}
             None => self.viol("alloc-layout", k, format!("{what}: object does not start at a live allocation")),
+        }
+        // the byte view must be exactly the object: same address, size_of_val bytes
+        if let Ok((vp, vl)) = obj.view() {
+            if vp != addr || vl != obj.size_of_val() {
+                self.viol("byte-view", k, format!("{what}: as_bytes() covers {vl} bytes at +{} of an object of {} bytes", vp.wrapping_sub(addr) as isize, obj.size_of_val()));
+            }
         }
         let sov = obj.size_of_val();
         if sov != round_up8(total) {
@@ -1004,6 +1014,9 @@ impl Interp {
             }
         };
         let sov = std::mem::size_of_val(&*s);
+        if view_of(&*s).ok() != Some((addr, sov)) {
+            self.viol("byte-view", "mbi", "as_bytes() of the built structure is not the whole object".into());
+        }
         let total = if img.len() >= 8 { u32::from_le_bytes(img[0..4].try_into().unwrap()) as usize } else { 0 };
         if sov != img.len() || total != img.len() || img.len() % 8 != 0 || img.len() < 16 {
             self.viol("length", "mbi", format!("size_of_val {sov}, as_bytes().len() {}, total_size field {total}", img.len()));
@@ -1232,6 +1245,9 @@ impl Interp {
             }
         };
         let sov = std::mem::size_of_val(&*s);
+        if view_of(&*s).ok() != Some((addr, sov)) {
+            self.viol("byte-view", "header", "as_bytes() of the built header is not the whole object".into());
+        }
         let w = |i: usize| u32::from_le_bytes(img[i..i + 4].try_into().unwrap());
         if img.len() < 16 {
             self.viol("length", "header", format!("built header has only {} bytes", img.len()));
